@@ -142,8 +142,12 @@ pub fn judge(scn: &Scenario, res: &ExecResult, _b: Option<&ExecResult>) -> Vec<V
 fn delay_scn(class: &str, tp: &str, w: usize, d0: usize, spec: bool, prefix: i32) -> Scenario {
     let mut s = base_scn(class, tp, w, d0, false, Pred::RepeatLast, Program::Changing, 1);
     if spec {
-        s.specs.push(SpecSpec::new(20, s.peers[0].addr));
-        s.name = format!("{} +spectator", s.name);
+        // a spectator that catches up fast (a delay increase hands it a burst of confirmed frames)
+        let mut sp = SpecSpec::new(20, s.peers[0].addr);
+        sp.catchup = 8;
+        sp.max_behind = 3;
+        s.specs.push(sp);
+        s.name = format!("{} +spectator(catchup 8, max_behind 3)", s.name);
     }
     s.name = format!("{} prefix={prefix}", s.name);
     s.checks = CK_C02 | CK_C04;
@@ -168,12 +172,15 @@ pub fn c11() -> i32 {
         ("2+1", 8, 0, false, vec![0, 1], 0),
         ("1+1", 8, 0, true, vec![0], 0),
         ("1+1", 8, 0, false, vec![0], 122),
+        // an all-local host with a spectator: a delay increase confirms a burst of frames at once
+        ("1", 8, 0, true, vec![0], 0),
     ];
     if t {
         cfgs.push(("1+1+1", 8, 0, false, vec![0], 0));
         cfgs.push(("2+1", 2, 3, true, vec![0, 1], 0));
         cfgs.push(("1+1", 8, 3, false, vec![0], 250));
         cfgs.push(("1+1", 0, 0, false, vec![0], 0));
+        cfgs.push(("2", 3, 1, true, vec![0, 1], 0));
     }
     for (tp, w, d0, spec, handles, prefix) in &cfgs {
         let base = delay_scn("c11-seq", tp, *w, *d0, *spec, *prefix);
